@@ -306,6 +306,42 @@ def run(ctx):
             sm.rel,
             st_.lineno,
         )
+    # ---- C15.6 a record's hash method never hands out another record's digest --------------------
+    # C15.1 looks at the hash_struct call sites; a `_calc_hash` that *returns* some other object's hash on one of its paths has no call site of
+    # its own there, yet the value it returns carries the other record kind's tag (PartialTask -> "Task").
+    r6 = ctx.rule("C15.6", "every return of a task/expression _calc_hash is a pre-image tagged for its own record kind", floor=8)
+    RETURN_EXCEPTIONS = {("redun/task.py", "Task._calc_hash", "self.compat[0]"): "compat=[...] pins the hash to one the user supplies (documented escape hatch)"}
+    nret = 0
+    for rel in ("redun/task.py", "redun/expression.py"):
+        mod = repo.mod(rel)
+        for q, fn in mod.funcs.items():
+            if q.split(".")[-1] != "_calc_hash" or q.count(".") != 1:
+                continue
+            cname = q.split(".")[0]
+            for r in ast.walk(fn):
+                if not (isinstance(r, ast.Return) and mod.enclosing_func(r) is fn and r.value is not None):
+                    continue
+                nret += 1
+                v = r.value
+                if (rel, q, src(v)) in RETURN_EXCEPTIONS:
+                    r6.good(f"{rel}:{q}:return:{src(v)}", RETURN_EXCEPTIONS[(rel, q, src(v))])
+                    continue
+                tagged = False
+                if isinstance(v, ast.Call) and call_name(v) == "hash_struct" and v.args:
+                    elts = _head(v.args[0])
+                    tagged = bool(elts) and const_str(elts[0]) is not None
+                if isinstance(v, ast.Call) and src(v.func) == "super()._calc_hash":
+                    tagged = True
+                r6.check(
+                    tagged,
+                    f"{rel}:{q}:return@{'tagged' if tagged else src(v)[:40]}",
+                    f"{q} returns `{src(v)[:60]}` (line {r.lineno}), which is not a pre-image built here with the {cname} tag: on that path a {cname} has exactly the hash of another record "
+                    "(e.g. an empty partial hashes as its task), so two values the callee can tell apart share an argument hash and an evaluation key, and a cached result of one kind is replayed for the other",
+                    rel,
+                    r.lineno,
+                )
+    if nret < 8:
+        raise AnalysisError(f"only {nret} returns found in task/expression _calc_hash methods", "_calc_hash")
 
 
 def _defines(repo, cname: str, attr: str) -> bool:
